@@ -111,6 +111,12 @@ func cfgS3(prop string, seed uint64, tier string) *RunCfg {
 				part = tabs[m*per:]
 			}
 			ms := MonSpec{Owner: name, AfterTxn: r.Intn(n/2 + 1), Tables: map[string]*MonTable{}, Concurrent: r.Intn(2) == 0}
+			if ms.Concurrent && r.Intn(2) == 0 {
+				ms.Delay = 1 + r.Intn(80)
+			}
+			if ms.Concurrent && r.Intn(2) == 0 {
+				ms.Burst = 1 + r.Intn(3)
+			}
 			ms.Method = []string{"monitor", "monitor_cond", "monitor_cond_since"}[r.Intn(3)]
 			for _, tn := range part {
 				t := sch.Tables[tn]
@@ -413,12 +419,19 @@ func runS3(e *Env, cfg *RunCfg) {
 	for i, txn := range cfg.Txns {
 		var pending []*cliMon
 		var owners []*mirrorClient
+		var late []MonSpec
+		var lateOwners []*mirrorClient
 		for _, m := range cfg.Monitors {
 			if m.AfterTxn != i {
 				continue
 			}
 			mc := byName[m.Owner]
 			if mc == nil {
+				continue
+			}
+			if m.Concurrent && s.cw == nil && (m.Delay > 0 || m.Burst > 0) {
+				late = append(late, m)
+				lateOwners = append(lateOwners, mc)
 				continue
 			}
 			cm := s.startMonitor(mc, m)
@@ -431,7 +444,38 @@ func runS3(e *Env, cfg *RunCfg) {
 				return
 			}
 		}
-		if !s.transact(i, txn) {
+		if len(late) > 0 {
+			// the transaction goes first; the monitor requests follow a number of scheduling steps
+			// later, and the writer may pipeline more transactions on the same rows meanwhile
+			calls := []*RawCall{s.issue(i, txn, txn.GenSeed, txn.Profile)}
+			for k, m := range late {
+				e.RunSteps(m.Delay)
+				if e.Stopped() {
+					return
+				}
+				pending = append(pending, s.startMonitor(lateOwners[k], m))
+				owners = append(owners, lateOwners[k])
+				e.Probes["monitor_concurrent_with_txn"]++
+				e.Probes["monitor_started_mid_txn"]++
+				for b := 0; b < m.Burst; b++ {
+					calls = append(calls, s.issue(i, txn, txn.GenSeed+uint64(1+b+10*k), "samerow"))
+					e.Probes["writer_burst_txn"]++
+				}
+			}
+			if !e.RunUntil(func() bool {
+				for _, c := range calls {
+					if !c.Done {
+						return false
+					}
+				}
+				return true
+			}) {
+				if !e.Stopped() {
+					s.hang(fmt.Sprintf("pipelined transactions around %d of the raw writer", i), nil)
+				}
+				return
+			}
+		} else if !s.transact(i, txn) {
 			return
 		}
 		for k, cm := range pending {
@@ -450,6 +494,24 @@ func runS3(e *Env, cfg *RunCfg) {
 			return
 		}
 	}
+}
+
+// issue sends one generated transaction through the raw writer without waiting.
+func (s *s3) issue(i int, txn TxnSpec, seed uint64, profile string) *RawCall {
+	e := s.e
+	before := DBState{}
+	if n := len(s.srv.DB.Commits); n > 0 && s.srv.DB.Commits[n-1].After != nil {
+		before = s.srv.DB.Commits[n-1].After
+	}
+	g := NewGen(e.Sch, seed, before, ProfileByName(profile), fmt.Sprintf("t%d_%d", i, seed%97))
+	ops, _ := g.Txn()
+	ops = NormalizeOps(ops)
+	e.Logf("txn %d (%s, pipelined): %s", i, profile, trimStr(string(mustJSON(ops)), 800))
+	params := []any{s.db}
+	for _, op := range ops {
+		params = append(params, op)
+	}
+	return s.w.Call("transact", params)
 }
 
 // transact issues transaction i through the raw writer or the writer client.
